@@ -315,8 +315,24 @@ def interpolated_frame_evaluation(ctx, dd):
     if add(m1, pool[0], e0, t0, f0) is None:
         return
     now = None
+
+    def snap_pool():
+        return [
+            (f.unix_time, f.frame_name, [D.snapshot3d(o) for o in f.objects], sorted((str(k), v.matrix.tolist()) for k, v in f.transforms.items()))
+            for f in pool
+        ]
+
+    before = snap_pool()
     with ctx.under_test("get_ground_truth_now_frame(interpolate)"):
         now = m1.get_ground_truth_now_frame(t, 200_000, interpolate_ground_truth=True)
+    # the statement: evaluating / looking up a frame does not modify the loaded dataset
+    after = snap_pool()
+    ctx.require(
+        before == after,
+        "interpolation-modified-loaded-dataset",
+        lambda: "get_ground_truth_now_frame(interpolate_ground_truth=True) changed the loaded frames: "
+        + str(next(((x, y) for fa, fb in zip(before, after) for x, y in zip(fa[2], fb[2]) if x != y), (before, after)))[:600],
+    )
     if now is None or now is pool[0] or now is pool[1]:
         ctx.violate("interpolated:not-interpolated", f"lookup strictly between two frames within tolerance returned {now!r}")
         return
